@@ -9,7 +9,9 @@
 2. The ORDER OF CHECKS AND WRITES of DiscriminativeModel.fit, SparseLinearModel.fit, SparseMLPModel.fit, KernelRIM.fit,
    Kauri.fit and Douglas._init_params: each body is read statement by statement into a list of events (validation calls,
    guarded raises, first stores of fitted attributes, super().fit, branches whose arms differ).  A statement is skipped only
-   when it is inert: it contains no raise, no store on self, no call of a validation / fitting entry point.
+   when it is inert: it contains no raise, no store on self, no call of a validation / fitting entry point — directly or through
+   a method of self / a function of the same module (these are looked up and analysed; never taken on trust).  A private helper
+   that does validate or store is INLINED at its call (`X = self._helper(X)`), anything else fails closed.
 3. The scalar rules: Kauri's cross-parameter comparison, Douglas' two feature-mask tests, the shape test of
    gemini/_geomdistances.py::_check_precomputed and of Kauri._compute_kernel, and which hyper-parameter is the
    ensure_min_samples bound.
@@ -312,28 +314,92 @@ def self_attr(t):
     return t.attr if isinstance(t, ast.Attribute) and isinstance(t.value, ast.Name) and t.value.id == "self" else None
 
 
-def inert(node):
-    """No raise, no store / delete on self, no call of a validation or fitting entry point anywhere inside."""
+F_MLP = "gemclus/mlp/_mlp_geminis.py"
+CLASS_FILES = [F_BASE, F_LIN, F_MLP, F_SL, F_SM, F_KAURI, F_DOUGLAS]
+# methods inherited from scikit-learn's BaseEstimator that only read the hyper-parameters
+SK_SAFE = {"get_params", "__sklearn_tags__", "_more_tags", "_get_tags"}
+_INDEX = {}
+
+
+def index():
+    """class name -> (file, ClassDef); file -> {module-level function name -> FunctionDef}"""
+    if not _INDEX:
+        classes, funcs = {}, {}
+        for rel in CLASS_FILES:
+            tree = load(rel)
+            funcs[rel] = {n.name: n for n in tree.body if isinstance(n, ast.FunctionDef)}
+            for n in tree.body:
+                if isinstance(n, ast.ClassDef):
+                    if n.name in classes:
+                        fail(f"class {n.name} defined twice")
+                    classes[n.name] = (rel, n)
+        _INDEX["classes"], _INDEX["funcs"] = classes, funcs
+    return _INDEX["classes"], _INDEX["funcs"]
+
+
+def resolve_method(cls, meth, depth=0):
+    """The definition `self.meth` refers to, statically: the class itself, then its in-repo bases (depth first). -> (owner, FunctionDef) | None"""
+    classes, _ = index()
+    if cls not in classes or depth > 6:
+        return None
+    rel, cd = classes[cls]
+    for n in cd.body:
+        if isinstance(n, ast.FunctionDef) and n.name == meth:
+            return cls, n
+    for b in cd.bases:
+        bn = b.id if isinstance(b, ast.Name) else b.attr if isinstance(b, ast.Attribute) else None
+        r = resolve_method(bn, meth, depth + 1) if bn else None
+        if r:
+            return r
+    return None
+
+
+def calls_ok(node, cls, depth, allow_flow):
+    """Shared walk.  False as soon as the node contains a raise, a store / delete on self, a call of a validation or fitting
+    entry point, or a call of a method of self / a function of the same module that is not itself free of those.
+    A call outside the vocabulary is never taken on trust: it is looked up and analysed, or the answer is False."""
+    classes, funcs = index()
+    rel = classes[cls][0] if cls in classes else None
+    banned = (ast.Raise, ast.Assert, ast.Try, ast.With, ast.Delete, ast.Global, ast.Nonlocal) + (() if allow_flow else (ast.Return, ast.Yield, ast.YieldFrom))
     for n in ast.walk(node):
-        if isinstance(n, (ast.Raise, ast.Assert, ast.Try, ast.With, ast.Return, ast.Yield, ast.YieldFrom, ast.Delete, ast.Global, ast.Nonlocal)):
+        if isinstance(n, banned):
             return False
         if isinstance(n, ast.Attribute) and isinstance(n.ctx, (ast.Store, ast.Del)) and isinstance(n.value, ast.Name) and n.value.id == "self":
             return False
-        if isinstance(n, ast.Call) and (call_name(n) in CHECK_CALLS or call_name(n) in ("setattr", "super", "set_params", "__setattr__")):
-            return False
+        if isinstance(n, ast.Call):
+            nm = call_name(n)
+            if nm in CHECK_CALLS or nm in ("setattr", "super", "set_params", "__setattr__", "exec", "eval"):
+                return False
+            if isinstance(n.func, ast.Attribute) and is_name(n.func.value, "self"):
+                r = resolve_method(cls, nm)
+                if r is None:
+                    if nm not in SK_SAFE:
+                        return False
+                elif depth >= 4 or not calls_ok(r[1], r[0], depth + 1, True):
+                    return False
+            elif isinstance(n.func, ast.Name) and rel is not None and nm in funcs[rel]:
+                if depth >= 4 or not calls_ok(funcs[rel][nm], cls, depth + 1, True):
+                    return False
+            elif any(is_name(a, "self") for a in n.args) or any(is_name(k.value, "self") for k in n.keywords):
+                return False          # the estimator handed to a function this translator cannot see into
     return True
+
+
+def inert(node, cls=None):
+    """No raise, no store / delete on self, no validation or fitting entry point, directly or through helpers."""
+    return calls_ok(node, cls, 0, False)
 
 
 def is_self_call(c, meth):
     return isinstance(c, ast.Call) and isinstance(c.func, ast.Attribute) and c.func.attr == meth and is_name(c.func.value, "self")
 
 
-def is_super_fit(c):
+def is_super_fit(c, cls=None):
     return (isinstance(c, ast.Call) and isinstance(c.func, ast.Attribute) and c.func.attr == "fit" and isinstance(c.func.value, ast.Call)
-            and is_name(c.func.value.func, "super") and not c.func.value.args and all(inert(a) for a in c.args) and not c.keywords)
+            and is_name(c.func.value.func, "super") and not c.func.value.args and all(inert(a, cls) for a in c.args) and not c.keywords)
 
 
-def validate_data_event(c, st):
+def validate_data_event(c, st, cls):
     if not (isinstance(c.func, ast.Name) and c.func.id == "validate_data" and len(c.args) == 2 and is_name(c.args[0], "self") and is_name(c.args[1], "X")):
         fail("validate_data call shape", st)
     ms = None
@@ -344,11 +410,20 @@ def validate_data_event(c, st):
                 fail("ensure_min_samples is not a hyper-parameter", st)
             ms = a
         elif kw.arg in ("accept_sparse", "dtype"):
-            if not inert(kw.value):
+            if not inert(kw.value, cls):
                 fail("validate_data keyword", st)
         else:
             fail(f"validate_data keyword {kw.arg}", st)
     return f"EValidateData {'None' if ms is None else '(Some ' + q(ms) + ')'}"
+
+
+def helper_call(st, cls):
+    """`self.m(...)` as a whole statement or as the value of `name = self.m(...)`, m outside the vocabulary and defined in the repository."""
+    c = st.value if isinstance(st, ast.Expr) or (isinstance(st, ast.Assign) and len(st.targets) == 1 and isinstance(st.targets[0], ast.Name)) else None
+    if not (isinstance(c, ast.Call) and isinstance(c.func, ast.Attribute) and is_name(c.func.value, "self")) or c.func.attr in CHECK_CALLS:
+        return None
+    r = resolve_method(cls, c.func.attr)
+    return None if r is None else (r[0], r[1], c)
 
 
 def rule_id(test):
@@ -366,7 +441,7 @@ def rule_id(test):
     return ",".join(sorted(names))
 
 
-def events(stmts):
+def events(stmts, cls, depth=0, inlined=False):
     out = []
     for st in strip_doc(stmts):
         # self._validate_params()
@@ -382,21 +457,29 @@ def events(stmts):
         elif (isinstance(st, (ast.Assign, ast.Expr)) and isinstance(st.value, ast.Call) and is_name(st.value.func, "validate_data")):
             if isinstance(st, ast.Assign) and not (len(st.targets) == 1 and is_name(st.targets[0], "X")):
                 fail("validate_data result stored elsewhere than X", st)
-            out.append(validate_data_event(st.value, st))
+            out.append(validate_data_event(st.value, st, cls))
         # if <test>: raise ...
         elif isinstance(st, ast.If) and is_raise(st.body) and not st.orelse:
-            if not inert(st.test):
+            if not inert(st.test, cls):
                 fail("test of a guarded raise is not inert", st)
             out.append(f"ERaiseIf {q(rule_id(st.test))}")
         # self._init_params(random_state, X)
         elif isinstance(st, ast.Expr) and is_self_call(st.value, "_init_params"):
             out.append("EInitParams")
         # super().fit(...) / return super().fit(...)
-        elif isinstance(st, (ast.Expr, ast.Return)) and st.value is not None and is_super_fit(st.value):
+        elif isinstance(st, (ast.Expr, ast.Return)) and st.value is not None and is_super_fit(st.value, cls):
             out.append("ESuperFit")
         elif isinstance(st, ast.Return):
-            if not is_name(st.value, "self"):
+            if not (is_name(st.value, "self") or (inlined and (st.value is None or inert(st.value, cls)))):
                 fail("return of something else than self / super().fit(..)", st)
+        # X = self._helper(X) / self._helper(...): a private helper outside the vocabulary is INLINED when it is not effect free
+        elif helper_call(st, cls) is not None:
+            owner, fn, call = helper_call(st, cls)
+            if calls_ok(fn, owner, 1, True):
+                continue
+            if depth >= 2 or not all(inert(a, cls) for a in call.args) or any(not inert(k.value, cls) for k in call.keywords) or fn.decorator_list:
+                fail("helper that validates or stores cannot be inlined here", st)
+            out += events(fn.body, owner, depth + 1, True)
         # stores: self.a = ..., n, self.a = ...
         elif isinstance(st, ast.Assign) and any(self_attr(t) or (isinstance(t, ast.Tuple) and any(self_attr(x) for x in t.elts)) for t in st.targets):
             if len(st.targets) != 1:
@@ -409,10 +492,10 @@ def events(stmts):
                     fail("check_groups call shape", st)
                 out.append("ECheckGroups")
             elif is_self_call(v, "_compute_kernel"):
-                if not all(inert(a) for a in v.args) or v.keywords:
+                if not all(inert(a, cls) for a in v.args) or v.keywords:
                     fail("_compute_kernel call shape", st)
                 out.append("EAffinity")
-            elif not inert(v):
+            elif not inert(v, cls):
                 fail("stored value is not inert", st)
             for a in attrs:
                 if not a.endswith("_"):
@@ -426,15 +509,15 @@ def events(stmts):
                     and [ast.unparse(a) for a in c.args] == ["X", "y"] and not c.keywords):
                 fail("affinity call shape", st)
             out.append("EAffinity")
-        elif isinstance(st, ast.If) and not inert(st):
-            if not inert(st.test):
+        elif isinstance(st, ast.If) and not inert(st, cls):
+            if not inert(st.test, cls):
                 fail("test of a branch is not inert", st)
-            a, b = events(st.body), events(st.orelse)
+            a, b = events(st.body, cls, depth, inlined), events(st.orelse, cls, depth, inlined)
             if a == b:
                 out += a
             else:
                 out.append(f"EBranch {q(rule_id(st.test))} [{'; '.join(a)}] [{'; '.join(b)}]")
-        elif inert(st):
+        elif inert(st, cls):
             continue
         else:
             fail("statement that is neither a known validation step / store nor inert", st)
@@ -442,13 +525,13 @@ def events(stmts):
 
 
 def translate_events():
-    spl = events(find_function(F_SL, "fit", "SparseLinearModel").body)
-    spm = events(find_function(F_SM, "fit", "SparseMLPModel").body)
-    defs = [("base_fit_events", events(find_function(F_BASE, "fit", "DiscriminativeModel").body)),
+    spl = events(find_function(F_SL, "fit", "SparseLinearModel").body, "SparseLinearModel")
+    spm = events(find_function(F_SM, "fit", "SparseMLPModel").body, "SparseMLPModel")
+    defs = [("base_fit_events", events(find_function(F_BASE, "fit", "DiscriminativeModel").body, "DiscriminativeModel")),
             ("sparse_linear_fit_events", spl), ("sparse_mlp_fit_events", spm),
-            ("kernelrim_fit_events", events(find_function(F_LIN, "fit", "KernelRIM").body)),
-            ("kauri_fit_events", events(find_function(F_KAURI, "fit", "Kauri").body)),
-            ("douglas_init_events", events(find_function(F_DOUGLAS, "_init_params", "Douglas").body))]
+            ("kernelrim_fit_events", events(find_function(F_LIN, "fit", "KernelRIM").body, "KernelRIM")),
+            ("kauri_fit_events", events(find_function(F_KAURI, "fit", "Kauri").body, "Kauri")),
+            ("douglas_init_events", events(find_function(F_DOUGLAS, "_init_params", "Douglas").body, "Douglas"))]
     return "".join(f"Definition {n} : list fevent :=\n  [{'; '.join(ev)}].\n" for n, ev in defs)
 
 
